@@ -964,4 +964,370 @@ theorem model_join_finds_pair :
   decide
 
 
+/-! ### the mode spellings (reviews s1 item, t1 item 6, v1: "mode spellings still undecoded")
+
+`Mode.ofPy` / `Mode.xorOfPy` (PygModel/Join.lean) transcribe the `if / elif` chains of `join` (lines 1192-1205) and `xor` (line 1258) on the
+python VALUE handed over as `mode`.  The theorems below characterise them against an independent description - an explicit list of the
+values python's `== 0` / `== 1` accepts and "a non-empty string whose first character is `l` / `L`" - and show that the four outcomes are
+exhaustive and mutually exclusive, so a wrong precedence (`'r'` tested before `0`, a callable tested first, `1.0` falling through to the
+pair) could not satisfy them. -/
+
+/-- the scalars python's `mode == 0` accepts: `0`, `0.0` (and `-0.0`: one wire value), `False` -/
+def IsZero (c : Cell) : Prop := c = .int 0 ∨ c = .flt 0 ∨ c = .bool false
+/-- the scalars python's `mode == 1` accepts: `1`, `1.0` (quarter units: `flt 4`), `True` -/
+def IsOne (c : Cell) : Prop := c = .int 1 ∨ c = .flt 4 ∨ c = .bool true
+/-- a non-empty string whose first character is `lo` or `up` -/
+def StartsWith (lo up : Char) (c : Cell) : Prop := ∃ s a rest, c = .str s ∧ s.toList = a :: rest ∧ (a = lo ∨ a = up)
+
+theorem toLower_eq_of (c lo up : Char) (n : Nat) (hlo : lo.val.toNat = n) (hn : 97 ≤ n ∧ n ≤ 122) (hup : up.val.toNat + 32 = n) :
+    c.toLower = lo ↔ c = lo ∨ c = up := by
+  have e1 : 'A'.val.toNat = 65 := by decide
+  have e2 : 'Z'.val.toNat = 90 := by decide
+  have e3 : 'a'.val.toNat = 97 := by decide
+  constructor
+  · intro he
+    unfold Char.toLower at he
+    split at he
+    · rename_i h
+      right
+      apply Char.ext
+      have h3 := congrArg (fun c : Char => c.val.toNat) he
+      have h1 := UInt32.le_iff_toNat_le.mp h.1
+      have h2 := UInt32.le_iff_toNat_le.mp h.2
+      simp only [UInt32.toNat_add, UInt32.toNat_sub] at h3
+      apply UInt32.toNat_inj.mp
+      rw [e1] at h1; rw [e2] at h2; rw [e3, e1, hlo] at h3
+      omega
+    · left; exact he
+  · rintro (rfl | rfl)
+    · unfold Char.toLower
+      split
+      · rename_i h
+        have h2 := UInt32.le_iff_toNat_le.mp h.2
+        rw [e2, hlo] at h2; omega
+      · rfl
+    · unfold Char.toLower
+      split
+      · apply Char.ext
+        apply UInt32.toNat_inj.mp
+        simp only [UInt32.toNat_add, UInt32.toNat_sub]
+        rw [e3, e1, hlo]; omega
+      · rename_i h
+        exfalso; apply h
+        constructor
+        · apply UInt32.le_iff_toNat_le.mpr; rw [e1]; omega
+        · apply UInt32.le_iff_toNat_le.mpr; rw [e2]; omega
+
+theorem toLower_eq_l (c : Char) : c.toLower = 'l' ↔ c = 'l' ∨ c = 'L' :=
+  toLower_eq_of c 'l' 'L' 108 (by decide) (by omega) (by decide)
+theorem toLower_eq_r (c : Char) : c.toLower = 'r' ↔ c = 'r' ∨ c = 'R' :=
+  toLower_eq_of c 'r' 'R' 114 (by decide) (by omega) (by decide)
+
+theorem pyEq_zero_iff (c : Cell) : c.pyEq (.int 0) = true ↔ IsZero c := by
+  unfold IsZero
+  cases c <;> simp [Cell.pyEq] <;> omega
+
+theorem pyEq_one_iff (c : Cell) : c.pyEq (.int 1) = true ↔ IsOne c := by
+  unfold IsOne
+  cases c <;> simp [Cell.pyEq] <;> omega
+
+theorem modeStarts_l (c : Cell) : modeStarts 'l' c = some true ↔ StartsWith 'l' 'L' c := by
+  unfold StartsWith
+  cases c <;> simp [modeStarts]
+  rename_i s
+  cases h : s.toList with
+  | nil => simp
+  | cons a rest => simp [toLower_eq_l]
+
+theorem modeStarts_r (c : Cell) : modeStarts 'r' c = some true ↔ StartsWith 'r' 'R' c := by
+  unfold StartsWith
+  cases c <;> simp [modeStarts]
+  rename_i s
+  cases h : s.toList with
+  | nil => simp
+  | cons a rest => simp [toLower_eq_r]
+
+theorem modeStarts_none (ch : Char) (c : Cell) : modeStarts ch c = Option.none ↔ c = .str "" := by
+  cases c <;> simp [modeStarts]
+  rename_i s
+  cases h : s.toList with
+  | nil => simp; exact String.ext (by simpa using h)
+  | cons a rest => simp; intro he; subst he; simp at h
+
+/-- the four-way reading of a scalar `mode`, as one statement: with `L = StartsWith 'l' 'L' c ∨ IsZero c` and `R = StartsWith 'r' 'R' c ∨ IsOne c`,
+the empty string is undefined, `L` gives left, otherwise `R` gives right, otherwise the pair -/
+theorem mode_val_cases (c : Cell) :
+    (c = .str "" ∧ Mode.ofPy (.val c) = Option.none) ∨
+    (c ≠ .str "" ∧ (StartsWith 'l' 'L' c ∨ IsZero c) ∧ Mode.ofPy (.val c) = some .left) ∨
+    (c ≠ .str "" ∧ ¬ (StartsWith 'l' 'L' c ∨ IsZero c) ∧ (StartsWith 'r' 'R' c ∨ IsOne c) ∧ Mode.ofPy (.val c) = some .right) ∨
+    (c ≠ .str "" ∧ ¬ (StartsWith 'l' 'L' c ∨ IsZero c) ∧ ¬ (StartsWith 'r' 'R' c ∨ IsOne c) ∧ Mode.ofPy (.val c) = some .pair) := by
+  rw [← modeStarts_l, ← modeStarts_r, ← pyEq_zero_iff, ← pyEq_one_iff]
+  cases hl : modeStarts 'l' c with
+  | none =>
+    left
+    exact ⟨(modeStarts_none _ _).mp hl, by simp [Mode.ofPy, hl]⟩
+  | some l =>
+    have hne : c ≠ .str "" := by
+      intro h; rw [← modeStarts_none 'l'] at h; rw [h] at hl; cases hl
+    have hr : ∃ r, modeStarts 'r' c = some r := by
+      cases h : modeStarts 'r' c with
+      | none => exact absurd ((modeStarts_none _ _).mp h) hne
+      | some r => exact ⟨r, rfl⟩
+    obtain ⟨r, hr⟩ := hr
+    right
+    have e : Mode.ofPy (.val c) = (if (l || c.pyEq (.int 0)) = true then some .left else
+        if (r || c.pyEq (.int 1)) = true then some .right else some .pair) := by
+      simp only [Mode.ofPy, hl, hr, Option.bind_eq_bind, Option.bind_some]
+    rw [e, hr]
+    generalize c.pyEq (.int 0) = z
+    generalize c.pyEq (.int 1) = o
+    cases l <;> cases z <;> cases r <;> cases o <;> simp [hne]
+
+/-- `mode` means "the left value" exactly for a string starting with `l` / `L` and for `0`, `0.0`, `False` -/
+theorem mode_left_iff (m : PyMode) :
+    Mode.ofPy m = some .left ↔ ∃ c, m = .val c ∧ (StartsWith 'l' 'L' c ∨ IsZero c) := by
+  cases m with
+  | fn f => simp [Mode.ofPy]
+  | val c =>
+    simp only [PyMode.val.injEq, exists_eq_left']
+    rcases mode_val_cases c with ⟨h, e⟩ | ⟨_, h, e⟩ | ⟨_, h, _, e⟩ | ⟨_, h, _, e⟩
+    · rw [e]; subst h
+      constructor
+      · intro h; cases h
+      · rintro (⟨s, a, rest, h1, h2, _⟩ | h)
+        · cases h1; simp at h2
+        · rcases h with h | h | h <;> cases h
+    · rw [e]; exact ⟨fun _ => h, fun _ => rfl⟩
+    · rw [e]; exact ⟨(fun h' => by cases h'), fun h' => absurd h' h⟩
+    · rw [e]; exact ⟨(fun h' => by cases h'), fun h' => absurd h' h⟩
+
+/-- … "the right value" exactly for a string starting with `r` / `R` and for `1`, `1.0`, `True` — provided it is not a left spelling
+(no value is both: `mode_left_right_disjoint`) -/
+theorem mode_right_iff (m : PyMode) :
+    Mode.ofPy m = some .right ↔ ∃ c, m = .val c ∧ (StartsWith 'r' 'R' c ∨ IsOne c) := by
+  cases m with
+  | fn f => simp [Mode.ofPy]
+  | val c =>
+    simp only [PyMode.val.injEq, exists_eq_left']
+    have disj : (StartsWith 'l' 'L' c ∨ IsZero c) → ¬ (StartsWith 'r' 'R' c ∨ IsOne c) := by
+      rintro (⟨s, a, rest, h1, h2, h3⟩ | h) (⟨s', a', rest', h1', h2', h3'⟩ | h')
+      · subst h1; cases h1'; rw [h2] at h2'; cases h2'
+        rcases h3 with rfl | rfl <;> rcases h3' with h | h <;> cases h
+      · subst h1; rcases h' with h | h | h <;> cases h
+      · subst h1'; rcases h with h | h | h <;> cases h
+      · rcases h with rfl | rfl | rfl <;> rcases h' with h | h | h <;> cases h
+    rcases mode_val_cases c with ⟨h, e⟩ | ⟨_, h, e⟩ | ⟨_, _, h, e⟩ | ⟨_, _, h, e⟩
+    · rw [e]; subst h
+      constructor
+      · intro h; cases h
+      · rintro (⟨s, a, rest, h1, h2, _⟩ | h)
+        · cases h1; simp at h2
+        · rcases h with h | h | h <;> cases h
+    · rw [e]; exact ⟨(fun h' => by cases h'), fun h' => absurd h' (disj h)⟩
+    · rw [e]; exact ⟨fun _ => h, fun _ => rfl⟩
+    · rw [e]; exact ⟨(fun h' => by cases h'), fun h' => absurd h' h⟩
+
+/-- a callable is applied, and only a callable is -/
+theorem mode_fn_iff (m : PyMode) (md : Mode) (hmd : ∃ f, md = .fn f) : Mode.ofPy m = some md ↔ ∃ f, m = .fn f ∧ md = .fn f := by
+  obtain ⟨g, rfl⟩ := hmd
+  cases m with
+  | fn f => simp [Mode.ofPy, eq_comm]
+  | val c =>
+    rcases mode_val_cases c with ⟨_, e⟩ | ⟨_, _, e⟩ | ⟨_, _, _, e⟩ | ⟨_, _, _, e⟩ <;> rw [e] <;> simp
+
+/-- the pair `(lhs, rhs)` is the reading of EVERY other scalar: `None` (the default), but also `'x'`, `2`, `nan`, a datetime -/
+theorem mode_pair_iff (m : PyMode) :
+    Mode.ofPy m = some .pair ↔
+      ∃ c, m = .val c ∧ c ≠ .str "" ∧ ¬ (StartsWith 'l' 'L' c ∨ IsZero c) ∧ ¬ (StartsWith 'r' 'R' c ∨ IsOne c) := by
+  cases m with
+  | fn f => simp [Mode.ofPy]
+  | val c =>
+    simp only [PyMode.val.injEq, exists_eq_left']
+    rcases mode_val_cases c with ⟨h, e⟩ | ⟨_, h, e⟩ | ⟨_, _, h, e⟩ | ⟨hne, h1, h2, e⟩
+    · rw [e]; exact ⟨(fun h' => by cases h'), fun h' => absurd h h'.1⟩
+    · rw [e]; exact ⟨(fun h' => by cases h'), fun h' => absurd h h'.2.1⟩
+    · rw [e]; exact ⟨(fun h' => by cases h'), fun h' => absurd h h'.2.2⟩
+    · rw [e]; exact ⟨fun _ => ⟨hne, h1, h2⟩, fun _ => rfl⟩
+
+/-- the model declines exactly one value: the empty string (`''[0]` raises IndexError in the code, but only once a shared non-key column is
+assembled; the driver answers `bad-op`, nothing is generated) -/
+theorem mode_undefined_iff (m : PyMode) : Mode.ofPy m = Option.none ↔ m = .val (.str "") := by
+  cases m with
+  | fn f => simp [Mode.ofPy]
+  | val c =>
+    simp only [PyMode.val.injEq]
+    rcases mode_val_cases c with ⟨h, e⟩ | ⟨h, _, e⟩ | ⟨h, _, _, e⟩ | ⟨h, _, _, e⟩ <;> rw [e] <;> simp [h]
+
+/-- `xor`: the right table exactly for `'r…'` / `'R…'` / `1` / `1.0` / `True` … -/
+theorem xor_mode_right_iff (m : PyMode) :
+    Mode.xorOfPy m = some 1 ↔ ∃ c, m = .val c ∧ (StartsWith 'r' 'R' c ∨ IsOne c) := by
+  cases m with
+  | fn f => simp [Mode.xorOfPy]
+  | val c =>
+    simp only [PyMode.val.injEq, exists_eq_left']
+    rw [← modeStarts_r, ← pyEq_one_iff]
+    cases hr : modeStarts 'r' c with
+    | none =>
+      have := (modeStarts_none _ _).mp hr; subst this
+      simp [Mode.xorOfPy, hr, Cell.pyEq]
+    | some r =>
+      simp only [Mode.xorOfPy, hr, Option.bind_eq_bind, Option.bind_some]
+      generalize c.pyEq (.int 1) = o
+      cases r <;> cases o <;> simp
+
+/-- … and the left table for every other value, `None`, `'x'`, `2`, `0` and callables included (the empty string is declined) -/
+theorem xor_mode_left_iff (m : PyMode) :
+    Mode.xorOfPy m = some 0 ↔ (∃ f, m = .fn f) ∨ ∃ c, m = .val c ∧ c ≠ .str "" ∧ ¬ (StartsWith 'r' 'R' c ∨ IsOne c) := by
+  cases m with
+  | fn f => simp [Mode.xorOfPy]
+  | val c =>
+    simp only [PyMode.val.injEq, exists_eq_left', reduceCtorEq, exists_false, false_or]
+    rw [← modeStarts_r, ← pyEq_one_iff, Ne, ← modeStarts_none 'r']
+    cases hr : modeStarts 'r' c with
+    | none => simp [Mode.xorOfPy, hr]
+    | some r =>
+      simp only [Mode.xorOfPy, hr, Option.bind_eq_bind, Option.bind_some]
+      generalize c.pyEq (.int 1) = o
+      cases r <;> cases o <;> simp
+
+theorem xor_mode_range (m : PyMode) (k : Nat) (h : Mode.xorOfPy m = some k) : k = 0 ∨ k = 1 := by
+  cases m with
+  | fn f => simp [Mode.xorOfPy] at h; omega
+  | val c =>
+    simp only [Mode.xorOfPy, Option.bind_eq_bind] at h
+    cases hr : modeStarts 'r' c with
+    | none => rw [hr] at h; cases h
+    | some r => rw [hr] at h; simp at h; split at h <;> omega
+
+/-- the spellings the statement lists (None, 'l', 'r', 0, 1) and the docstring's ('left', 'lhs', 'right', 'rhs'), a few it does not
+(`True`, `1.0`, `'Left'`, `'x'`, `2`): what each means for `join` and for `xor` -/
+theorem mode_listed :
+    Mode.ofPy (.val .none) = some .pair ∧ Mode.ofPy (.val (.str "l")) = some .left ∧ Mode.ofPy (.val (.str "r")) = some .right ∧
+    Mode.ofPy (.val (.int 0)) = some .left ∧ Mode.ofPy (.val (.int 1)) = some .right ∧
+    Mode.ofPy (.val (.str "left")) = some .left ∧ Mode.ofPy (.val (.str "lhs")) = some .left ∧
+    Mode.ofPy (.val (.str "right")) = some .right ∧ Mode.ofPy (.val (.str "RHS")) = some .right ∧
+    Mode.ofPy (.val (.bool true)) = some .right ∧ Mode.ofPy (.val (.flt 4)) = some .right ∧ Mode.ofPy (.val (.bool false)) = some .left ∧
+    Mode.ofPy (.val (.str "Left")) = some .left ∧ Mode.ofPy (.val (.str "x")) = some .pair ∧ Mode.ofPy (.val (.int 2)) = some .pair ∧
+    Mode.ofPy (.val .nan) = some .pair ∧
+    Mode.xorOfPy (.val .none) = some 0 ∧ Mode.xorOfPy (.val (.str "l")) = some 0 ∧ Mode.xorOfPy (.val (.str "r")) = some 1 ∧
+    Mode.xorOfPy (.val (.int 0)) = some 0 ∧ Mode.xorOfPy (.val (.int 1)) = some 1 ∧ Mode.xorOfPy (.val (.str "x")) = some 0 ∧
+    Mode.xorOfPy (.val (.int 2)) = some 0 ∧ Mode.xorOfPy (.val (.bool true)) = some 1 := by
+  refine ⟨?_, ?_, ?_, ?_, ?_, ?_, ?_, ?_, ?_, ?_, ?_, ?_, ?_, ?_, ?_, ?_, ?_, ?_, ?_, ?_, ?_, ?_, ?_, ?_⟩ <;> rfl
+
+/-- what the combined column holds, by the python value of `mode` (with `join_col_both`: the cell of a same-named non-key column) -/
+theorem mode_apply_spec (m : PyMode) (md : Mode) (h : Mode.ofPy m = some md) (a b : Cell) :
+    (∀ c, m = .val c → (StartsWith 'l' 'L' c ∨ IsZero c) → md.apply a b = .cell a) ∧
+    (∀ c, m = .val c → ¬ (StartsWith 'l' 'L' c ∨ IsZero c) → (StartsWith 'r' 'R' c ∨ IsOne c) → md.apply a b = .cell b) ∧
+    (∀ c, m = .val c → ¬ (StartsWith 'l' 'L' c ∨ IsZero c) → ¬ (StartsWith 'r' 'R' c ∨ IsOne c) → md.apply a b = .tuple [.cell a, .cell b]) ∧
+    (∀ f, m = .fn f → md.apply a b = f a b) := by
+  refine ⟨?_, ?_, ?_, ?_⟩
+  · rintro c rfl hl
+    have := (mode_left_iff (.val c)).mpr ⟨c, rfl, hl⟩
+    rw [this] at h; cases h; rfl
+  · rintro c rfl hl hr
+    rcases mode_val_cases c with ⟨_, e⟩ | ⟨_, h', _⟩ | ⟨_, _, _, e⟩ | ⟨_, _, h', _⟩
+    · rw [e] at h; cases h
+    · exact absurd h' hl
+    · rw [e] at h; cases h; rfl
+    · exact absurd hr h'
+  · rintro c rfl hl hr
+    rcases mode_val_cases c with ⟨_, e⟩ | ⟨_, h', _⟩ | ⟨_, _, h', _⟩ | ⟨_, _, _, e⟩
+    · rw [e] at h; cases h
+    · exact absurd h' hl
+    · exact absurd h' hr
+    · rw [e] at h; cases h; rfl
+  · rintro f rfl
+    simp only [Mode.ofPy, Option.some.injEq] at h; subst h; rfl
+
+/-- the legacy mode atoms of the wire are the python values of `PY_MODES` (harness/pv/props/c02.py), and decode as before -/
+theorem legacy_mode_atoms :
+    JoinDriver.modeOf (.atom "mN") = some .pair ∧ JoinDriver.modeOf (.atom "ml0") = some .left ∧ JoinDriver.modeOf (.atom "mlS") = some .left ∧
+    JoinDriver.modeOf (.atom "mlL") = some .left ∧ JoinDriver.modeOf (.atom "mr1") = some .right ∧ JoinDriver.modeOf (.atom "mrS") = some .right ∧
+    JoinDriver.modeOf (.atom "mrR") = some .right ∧
+    JoinDriver.xorModeOf (.atom "mN") = some 0 ∧ JoinDriver.xorModeOf (.atom "ml0") = some 0 ∧ JoinDriver.xorModeOf (.atom "mlS") = some 0 ∧
+    JoinDriver.xorModeOf (.atom "mlL") = some 0 ∧ JoinDriver.xorModeOf (.atom "mr1") = some 1 ∧ JoinDriver.xorModeOf (.atom "mrS") = some 1 ∧
+    JoinDriver.xorModeOf (.atom "mrR") = some 1 := by
+  refine ⟨?_, ?_, ?_, ?_, ?_, ?_, ?_, ?_, ?_, ?_, ?_, ?_, ?_, ?_⟩ <;> rfl
+
+
+/-! ### `dictOf`: a repeated name keeps the cells of its LAST occurrence (lookup lemma, open since review s1) -/
+
+theorem lookup_mapSet_ne {α} (d : List (String × α)) (a : String) (v : α) (k : String) (hk : (k == a) = false) :
+    List.lookup k (d.map fun c => if c.1 == a then (a, v) else c) = List.lookup k d := by
+  induction d with
+  | nil => rfl
+  | cons c rest ih =>
+    obtain ⟨c1, c2⟩ := c
+    simp only [List.map_cons, List.lookup_cons]
+    by_cases hc : (c1 == a) = true
+    · have e : c1 = a := by simpa using hc
+      have hkc : (k == c1) = false := by rw [e]; exact hk
+      simp only [hc, if_true, hk, hkc, ih, List.lookup_cons]
+    · have hc' : (c1 == a) = false := by simpa using hc
+      simp only [hc', Bool.false_eq_true, if_false, ih, List.lookup_cons]
+
+theorem lookup_mapSet_eq {α} (d : List (String × α)) (a : String) (v : α) (h : d.any (·.1 == a) = true) :
+    List.lookup a (d.map fun c => if c.1 == a then (a, v) else c) = some v := by
+  induction d with
+  | nil => simp at h
+  | cons c rest ih =>
+    obtain ⟨c1, c2⟩ := c
+    simp only [List.map_cons]
+    by_cases hc : (c1 == a) = true
+    · simp [hc, List.lookup_cons]
+    · have hc' : (c1 == a) = false := by simpa using hc
+      have hac : (a == c1) = false := by
+        rw [beq_eq_false_iff_ne] at hc' ⊢; exact fun e => hc' e.symm
+      simp only [hc', Bool.false_eq_true, if_false, hac, List.lookup_cons]
+      exact ih (by simpa [List.any_cons, hc'] using h)
+
+theorem lookup_dictSet {α} (d : List (String × α)) (a : String) (v : α) (k : String) :
+    List.lookup k (dictSet d a v) = if k == a then some v else List.lookup k d := by
+  unfold dictSet
+  by_cases hk : (k == a) = true
+  · have e : k = a := by simpa using hk
+    subst e
+    simp only [beq_self_eq_true, if_true]
+    by_cases hany : d.any (·.1 == k) = true
+    · rw [if_pos hany]; exact lookup_mapSet_eq d k v hany
+    · rw [if_neg hany, List.lookup_append]
+      have : List.lookup k d = Option.none := by
+        rw [List.lookup_eq_none_iff]
+        intro p hp
+        simp only [List.any_eq_true, not_exists, not_and] at hany
+        have := hany p hp
+        rw [bne_iff_ne]
+        intro e; exact this (by simp [e])
+      simp [this]
+  · have hk' : (k == a) = false := by simpa using hk
+    simp only [hk', Bool.false_eq_true, if_false]
+    by_cases hany : d.any (·.1 == a) = true
+    · rw [if_pos hany]; exact lookup_mapSet_ne d a v k hk'
+    · rw [if_neg hany, List.lookup_append]
+      simp [List.lookup_cons, hk']
+
+theorem lookup_foldl_dictSet {α} (kvs d : List (String × α)) (k : String) :
+    List.lookup k (kvs.foldl (fun d kv => dictSet d kv.1 kv.2) d) = (List.lookup k kvs.reverse).or (List.lookup k d) := by
+  induction kvs generalizing d with
+  | nil => simp
+  | cons kv rest ih =>
+    obtain ⟨k1, v1⟩ := kv
+    rw [List.foldl_cons, ih, lookup_dictSet, List.reverse_cons, List.lookup_append]
+    cases List.lookup k rest.reverse with
+    | some v => simp
+    | none =>
+      simp only [Option.none_or, List.lookup_cons, List.lookup_nil]
+      by_cases hk : (k == k1) = true <;> simp [hk, List.lookup_cons]
+
+/-- **`dict(zip(names, columns))`**: looking a name up in `dictOf kvs` gives the cells of its LAST occurrence in `kvs` (lookup in the reversed list) -
+what `join_dup_spec`'s key part means for `x.join(y, ['a','a'], ['a','b'])`: the column `a` holds the SECOND key component -/
+theorem dictOf_lookup {α} (kvs : List (String × α)) (k : String) :
+    List.lookup k (dictOf kvs) = List.lookup k kvs.reverse := by
+  unfold dictOf
+  rw [lookup_foldl_dictSet]
+  simp
+
+example : List.lookup "a" (dictOf [("a", 1), ("b", 2), ("a", 3)]) = some 3 := by
+  rw [dictOf_lookup]; rfl
+
 end Pyg.Props.C02
